@@ -971,7 +971,7 @@ func genScenario(r *rand.Rand, prop string) *Scenario {
 		}
 		s.Txs = append(s.Txs, t)
 	}
-	if len(s.Txs) >= 2 && r.Intn(3) == 0 {
+	if len(s.Txs) >= 2 && r.Intn(2) == 0 {
 		// hot-key relay: consecutive transactions of the block each get one more action that owns the same key and
 		// applies the next step of delete / write-empty / delete / write / read ..., so that a transaction meets a key
 		// that an EARLIER transaction of the block deleted, re-created, or set to the empty value (which must stay
@@ -982,12 +982,12 @@ func genScenario(r *rand.Rand, prop string) *Scenario {
 			{{Kind: OpDel, Key: k, Val: []byte{}}},
 			{{Kind: OpPut, Key: k, Val: []byte{}}},
 			{{Kind: OpDel, Key: k, Val: []byte{}}},
-			{{Kind: OpPut, Key: k, Val: small()}},
-			{{Kind: OpGet, Key: k, Val: []byte{}}},
 			{{Kind: OpPut, Key: k, Val: []byte{}}},
+			{{Kind: OpGet, Key: k, Val: []byte{}}},
 			{{Kind: OpPut, Key: k, Val: small()}},
 			{{Kind: OpPut, Key: k, Val: []byte{}}},
 			{{Kind: OpDel, Key: k, Val: []byte{}}},
+			{{Kind: OpPut, Key: k, Val: []byte{}}},
 		}
 		start := r.Intn(len(rot))
 		for i := range s.Txs {
